@@ -27,6 +27,8 @@ SEQ_ACTIONS = ["M_Dequeue", "M_Skip", "M_SpawnTask", "M_PollTasks", "M_LockVfs",
                "M_OpenStore", "M_WatchedDelete", "M_UnlockVfs", "M_TakeChange", "M_RequestCancel", "M_AcquireDbWrite",
                "M_SetInputs", "M_SpawnDiagT", "M_Close", "D_Emit", "E_Publish", "T_Start", "T_Aborted", "T_ReadVfs", "T_QueryDone",
                "T_Return", "D_Return", "C_Script", "Finish"]
+DOC_KIND = {"u": "untitled", "h": "file_with_authority", "g": "other_scheme", "o": "outside_package", "e": "percent_encoded",
+            "q": "query_fragment"}
 PER_SESSION = 25
 DEADLINE = 30.0
 
@@ -83,7 +85,7 @@ def change_class(units, ch):
 
 def features_of(step):
     m = step["m"]
-    f = {"kind": m["k"], "doc": "untitled" if m["d"] == "u" else ("file" if m["d"] else "")}
+    f = {"kind": m["k"], "doc": DOC_KIND.get(m["d"], "file" if m["d"] else "")}
     if m["k"] == "change":
         pre = step["pre"]["text"][m["d"]]
         f["change_class"] = change_class(pre, m["chs"][0])
@@ -102,8 +104,9 @@ class Dead(Exception):
 
 class Player:
     def __init__(self, sess, root, k, tab):
-        self.s, self.tab, self.k = sess, tab, k
+        self.s, self.tab, self.k, self.root = sess, tab, k, root
         self.pkg = os.path.join(root, f"p{k}")
+        os.makedirs(os.path.join(root, f"outside{k}"))
         os.makedirs(os.path.join(self.pkg, "src"))
         open(os.path.join(self.pkg, "gleam.toml"), "w").write(f'name = "p{k}"\nversion = "0.1.0"\n')
         self.disk = {"d1": ["a", "nl", "a"], "d2": ["a"]}            # = DiskText of the spec
@@ -112,10 +115,25 @@ class Player:
         self.ids = []
 
     def path(self, d):
-        return os.path.join(self.pkg, "src", d + ".gleam")
+        """local file path of a document, None if its URI has none"""
+        if d in ("u", "h", "g"):
+            return None
+        if d == "o":                                   # outside any package: no gleam.toml above it
+            return os.path.join(self.root, f"outside{self.k}", "o.gleam")
+        name = {"e": "caf\u00e9 \u4e2d x", "q": "d3"}.get(d, d)
+        return os.path.join(self.pkg, "src", name + ".gleam")
 
     def uri(self, d):
-        return f"untitled:Untitled-{self.k}" if d == "u" else lsp.uri(self.path(d))
+        """documents by URI shape (see Server.tla, 'Documents')"""
+        if d == "u":
+            return f"untitled:Untitled-{self.k}"
+        if d == "h":                                   # authority present: no local path on this platform
+            return f"file://fileserver/share/p{self.k}/src/b.gleam"
+        if d == "g":                                   # another scheme whose path part names an existing file
+            return "git:" + self.path("d1")
+        if d == "q":                                   # same file path as d3
+            return lsp.uri(self.path("d3")) + "?rev=1#L1"
+        return lsp.uri(self.path(d))                   # percent-encodes "e"
 
     def request(self, method, params):
         i = self.s.send_request(method, params)
@@ -175,7 +193,7 @@ class Player:
         elif k == "save":
             s.notify("textDocument/didSave", {"textDocument": td})
         elif k == "fsdel":
-            if d != "u" and os.path.exists(self.path(d)):
+            if self.path(d) and os.path.exists(self.path(d)):
                 os.remove(self.path(d))
         elif k == "cancel":
             s.notify("$/cancelRequest", {"id": 987654})
@@ -192,7 +210,12 @@ class Player:
         self.last_sent = -1
 
         def culprit():
-            return features_of(steps[self.last_sent]) if self.last_sent >= 0 else {"kind": "(start)"}
+            if self.last_sent < 0:
+                return {"kind": "(start)"}
+            f = features_of(steps[self.last_sent])
+            # was the document with two URIs (d3 and d3?query#fragment) addressed through its second URI so far?
+            f["alias_used"] = any(st["m"]["d"] == "q" for st in steps[:self.last_sent + 1])
+            return f
         try:
             for i, st in enumerate(steps):
                 bad = self.check_obs(st["pre"], f"before message {i}")
@@ -333,9 +356,10 @@ def run(out, tier, seed):
     out.cov["exhaustive"] = True
     out.cov["samples"] += [bfs[len(bfs) // 3]["steps"][-1]["m"], sim[0]["steps"][3]["m"]]
     out.cov["rule"] = ("scripts = (a) didOpen of one document followed by every single message of the grammar in Server.tla "
-                       "(%d scripts, %d played; exhaustive for the grammar) and (b) %d simulated scripts of 12 messages over 4 "
-                       "documents (2 on disk, 1 new, 1 untitled:); every script is played against the real server binary, %d scripts "
-                       "per process; after every message glas/syntaxTree of all 4 documents is compared with the spec's predicted "
+                       "(%d scripts, %d played; exhaustive for the grammar) and (b) %d simulated scripts of 12 messages over 9 "
+                       "documents by URI shape (in package on disk / new / percent-encoded / with query+fragment, outside any package, "
+                       "file://host/..., untitled:, git:); every script is played against the real server binary, %d scripts "
+                       "per process; after every message glas/syntaxTree of all 9 documents is compared with the spec's predicted "
                        "text / absence, the process must stay alive, answer every request exactly once and exit with status 0 after "
                        "shutdown/exit. non-trivial = script contains a content change the design must reject"
                        % (len(bfs), len(bfs_play), len(sim), PER_SESSION))
